@@ -1,3 +1,4 @@
+#![allow(dead_code)]
 //! simctl — deterministic simulation with fault injection for ruint's codec / parser / generator
 //! seams. See /verif/DESIGN.md.
 
@@ -34,7 +35,7 @@ fn main() -> ExitCode {
     let opt = |name: &str| -> Option<String> { args.iter().position(|a| a == name).and_then(|i| args.get(i + 1).cloned()) };
     let flag = |name: &str| args.iter().any(|a| a == name);
     match cmd.as_str() {
-        "run" | "probe" => {
+        "run" | "probe" | "emit-plan" => {
             let Some(property) = opt("--property") else { return usage() };
             let cfg = batch::RunCfg {
                 property,
@@ -51,6 +52,7 @@ fn main() -> ExitCode {
                 hang_file: opt("--hang-file"),
                 only_stage: opt("--only-stage").and_then(|s| s.parse().ok()),
                 build_label: opt("--build-label").unwrap_or_default(),
+                announce: flag("--announce"),
                 skip: opt("--skip")
                     .map(|s| s.split(',').filter_map(|x| x.split_once(':').and_then(|(a, b)| Some((a.parse().ok()?, b.parse().ok()?)))).collect())
                     .unwrap_or_default(),
@@ -59,6 +61,18 @@ fn main() -> ExitCode {
                     _ => None,
                 },
             };
+            if cmd == "emit-plan" {
+                // the explicit trace of one run of a batch, as JSON (used to turn a Miri stop into a replay file)
+                let arm_id: u64 = opt("--stage").and_then(|s| s.parse().ok()).unwrap_or(0);
+                let index: u64 = opt("--index").and_then(|s| s.parse().ok()).unwrap_or(0);
+                let point: Option<usize> = opt("--point").and_then(|s| s.parse().ok());
+                let Some(stage) = batch::stages(&cfg.property, &cfg.tier, cfg.scale).into_iter().find(|s| s.arm_id == arm_id) else { return ExitCode::from(2) };
+                let mut plan = contain::plan_at(&cfg, &stage, index, point);
+                plan.property = cfg.property.clone();
+                plan.expect = Some(plan::Expect { class: opt("--class").unwrap_or_else(|| "UB".into()), detail: opt("--detail").unwrap_or_default() });
+                println!("{}", serde_json::to_string_pretty(&plan).unwrap());
+                return ExitCode::SUCCESS;
+            }
             if cmd == "probe" {
                 let arm_id = opt("--stage").and_then(|s| s.parse().ok()).unwrap_or(0);
                 let from = opt("--from").and_then(|s| s.parse().ok()).unwrap_or(0);
